@@ -30,6 +30,17 @@ pub fn family(thorough: bool) -> Vec<(String, Prog, CircuitConfig)> {
         let mut config = CircuitConfig::standard_recursion_config();
         if i % 4 == 3 { config.num_routed_wires = 50; }
         if i % 5 == 4 { config.fri_config.cap_height = 1; }
+        // the same constant in its canonical and its non-canonical representation (0 and p): the builder's
+        // constant map must treat them as one key whatever the hash-map seed of the build
+        let mut prog = prog;
+        let n0 = prog.ops.len();
+        prog.ops.push(Op::Const(0));
+        prog.ops.push(Op::Const(P));
+        prog.ops.push(Op::Const(P - 1));
+        prog.ops.push(Op::Add(n0 + 1, n0 + 2));
+        prog.ops.push(Op::Mul(n0, n0 + 3));
+        prog.ops.push(Op::Public(n0 + 3));
+        prog.ops.push(Op::Public(n0 + 4));
         out.push((format!("prog{i}"), prog, config));
     }
     out
@@ -105,7 +116,51 @@ pub fn emit(e: &mut Emitter, _seed: u64, thorough: bool) {
         keys.insert(format!("intermediate{lg}"), serde_json::json!(seen[0].to_string()));
         e.count("intermediate compared under 4 thread counts");
     }
+    for m in packed_battery() { e.oracle_failures.push(format!("generic packed code disagrees with scalar code in this build: {m}")); }
+    e.count("packed-field battery (packing width of this build compared lane by lane with scalar arithmetic)");
     e.extra_json = Some(serde_json::json!({ "keys": keys }));
+}
+
+/// Generic `P: PackedField` code must compute the same values for `P = F` and `P = F::Packing`
+/// (on builds where the packing is a SIMD vector): every binary operation between a packed vector
+/// and a packed vector / a scalar, on boundary words in every representation, lane by lane.
+pub fn packed_battery() -> Vec<String> {
+    use plonky2::field::packable::Packable;
+    use plonky2::field::packed::PackedField;
+    use plonky2::field::ops::Square;
+    type PF = <F as Packable>::Packing;
+    let words: Vec<u64> = vec![0, 1, 2, P - 1, P, P + 1, u64::MAX, u64::MAX - 1, 1 << 32, (1 << 32) - 1, P - (1 << 32), 0xFFFF_FFFF_0000_0000, 0x8000_0000_0000_0000, 0xFFFF_FFFE_FFFF_FFFF];
+    let raw = |x: u64| F::from_noncanonical_u64(x);
+    let w = PF::WIDTH;
+    let mut bad = vec![];
+    let mut r = Rng::new(0xC19B);
+    for round in 0..(words.len() * words.len() + 200) {
+        let (a0, b0) = if round < words.len() * words.len() { (words[round / words.len()], words[round % words.len()]) } else { (r.next(), if r.coin() { *r.pick(&words) } else { r.next() }) };
+        let lanes_a: Vec<F> = (0..w).map(|i| raw(if i == 0 { a0 } else { words[(round + i) % words.len()] })).collect();
+        let lanes_b: Vec<F> = (0..w).map(|i| raw(if i == 0 { b0 } else { words[(round + 3 * i) % words.len()] })).collect();
+        let (pa, pb) = (*PF::from_slice(&lanes_a), *PF::from_slice(&lanes_b));
+        let s = raw(b0);
+        let results: Vec<(&str, PF, Vec<F>)> = vec![
+            ("packed+packed", pa + pb, (0..w).map(|i| lanes_a[i] + lanes_b[i]).collect()),
+            ("packed-packed", pa - pb, (0..w).map(|i| lanes_a[i] - lanes_b[i]).collect()),
+            ("packed*packed", pa * pb, (0..w).map(|i| lanes_a[i] * lanes_b[i]).collect()),
+            ("packed+scalar", pa + s, (0..w).map(|i| lanes_a[i] + s).collect()),
+            ("packed-scalar", pa - s, (0..w).map(|i| lanes_a[i] - s).collect()),
+            ("packed*scalar", pa * s, (0..w).map(|i| lanes_a[i] * s).collect()),
+            ("-packed", -pa, (0..w).map(|i| -lanes_a[i]).collect()),
+            ("packed.square", pa.square(), (0..w).map(|i| lanes_a[i] * lanes_a[i]).collect()),
+        ];
+        for (op, got, want) in results {
+            let g = got.as_slice();
+            for i in 0..w {
+                if g[i].to_canonical_u64() != want[i].to_canonical_u64() && bad.len() < 8 {
+                    bad.push(format!("packed-field: {op} lane {i} of width {w}: operands raw {:#x} / {:#x} (scalar {:#x}) give {} , scalar arithmetic gives {}",
+                        lanes_a[i].0, lanes_b[i].0, b0, g[i].to_canonical_u64(), want[i].to_canonical_u64()));
+                }
+            }
+        }
+    }
+    bad
 }
 
 fn hex(b: &[u8]) -> String {
@@ -134,6 +189,7 @@ pub fn cross_verify(path: &str, thorough: bool) -> i32 {
             }
         }
     }
+    for m in packed_battery() { println!("KEY-MISMATCH {m}"); bad += 1; }
     println!("c19verify: {bad} mismatches");
     bad
 }
